@@ -1,6 +1,7 @@
 package main
 
 import (
+	"time"
 	"bytes"
 	"encoding/json"
 	"fmt"
@@ -99,6 +100,17 @@ func (cliStream) Generate(rng *rand.Rand, tier string, emit func(Case)) {
 			}
 		}
 	}
+	// the monitor sub-command: a Spec file appears while it runs; what it prints then is the library's listing
+	for k := 0; k < 2; k++ {
+		l := genCleanLayout(rng)
+		if len(l.Dirs) == 0 {
+			l.Dirs = []string{"p:A"}
+		}
+		lj, _ := json.Marshal(l)
+		var lm map[string]any
+		_ = json.Unmarshal(lj, &lm)
+		emit(Case{"op": "monitor", "layout": lm})
+	}
 	g := docGen{rng}
 	for i := 0; i < nv; i++ {
 		d := g.spec()
@@ -150,6 +162,49 @@ func (cliStream) Execute(c Case) {
 		skip("cdi binary not built")
 	}
 	switch c["op"] {
+	case "monitor":
+		defer os.RemoveAll(cacheRoot)
+		var l layoutDesc
+		lj, _ := json.Marshal(c["layout"])
+		_ = json.Unmarshal(lj, &l)
+		dirs, _ := materialize(l)
+		obs["stdout"], obs["skipped"] = []any{}, true
+		var target string
+		for _, d := range dirs {
+			if fi, err := os.Stat(d); err == nil && fi.IsDir() {
+				target = d
+			}
+		}
+		lib["devices"] = []any{}
+		if target == "" {
+			return
+		}
+		cmd := exec.Command(binPath("cdi"), "-d", strings.Join(dirs, ","), "monitor", "devices")
+		var out bytes.Buffer
+		cmd.Stdout = &out
+		if cmd.Start() != nil {
+			return
+		}
+		time.Sleep(1500 * time.Millisecond) // the listing at start has been printed
+		tmp := filepath.Join(cacheRoot, "outside", "late.json")
+		_ = os.WriteFile(tmp, []byte(`{"cdiVersion":"0.6.0","kind":"monitor.com/late","devices":[{"name":"m0","containerEdits":{"env":["M=0"]}}]}`), 0o644)
+		_ = os.Rename(tmp, filepath.Join(target, "zz-monitor-late.json"))
+		time.Sleep(2200 * time.Millisecond) // one second after the last event the tool prints again
+		_ = cmd.Process.Kill()
+		_ = cmd.Wait()
+		fresh, _ := cdi.NewCache(cdi.WithSpecDirs(dirs...), cdi.WithAutoRefresh(false))
+		lib["devices"] = hxList(fresh.ListDevices())
+		lines := strings.Split(strings.TrimSuffix(out.String(), "\n"), "\n")
+		last := -1
+		for i, ln := range lines {
+			if ln == "CDI devices found:" || ln == "No CDI devices found." {
+				last = i
+			}
+		}
+		if last >= 0 {
+			obs["stdout"], obs["skipped"] = hxList(lines[last:]), false
+		}
+		return
 	case "list", "inject":
 		defer os.RemoveAll(cacheRoot)
 		var l layoutDesc
